@@ -27,9 +27,9 @@ CAST = re.compile(r"\((FiWord|FiClos|FiSInt|FiBInt|FiPtr|FiBool|FiArr|FiRec|FiCh
 
 def k5_norm(t):
     """the known difference of the .fm route: omitted (Fi...) casts (and the line breaks / parentheses that go with them)"""
-    t = re.sub(r"\(Fi[A-Za-z]+\)\s*", "", t)
-    t = re.sub(r"\((G_\w+)\)", r"\1", t)
-    return re.sub(r"\s+", "", t)
+    t = re.sub(r"\s+", "", t)          # the pretty-printer may break a line inside the parentheses of a cast
+    t = re.sub(r"\(Fi[A-Za-z]+\)", "", t)
+    return re.sub(r"\((G_\w+)\)", r"\1", t)
 
 
 WIDE_FM = re.compile(r"\(BCall\s+SIntOr\s+\(BCall\s+SIntShiftUp\s+\(SInt (\d+)\)\s+\(SInt (\d+)\)\)\s+\(SInt (\d+)\)\)")
